@@ -570,3 +570,25 @@ Proof.
   rewrite !dsin_plus, !dcos_plus. pose proof (dsin2_dcos2 (x / 2)) as Hx. pose proof (dsin2_dcos2 (y / 2)) as Hy.
   revert Hx Hy. generalize (dsin (x / 2)) (dcos (x / 2)) (dsin (y / 2)) (dcos (y / 2)). intros sx cx sy cy Hx Hy. nsatz.
 Qed.
+
+(* the centred rounded rectangle is the un-centred one moved by (-w/2, -h/2): it lies in [-w/2, w/2] x [-h/2, h/2] *)
+Theorem rounded_rect_centred (w h r : R) (segments : Z) pts : 0 < r -> 2 * r <= w -> 2 * r <= h -> (1 <= segments)%Z ->
+  rounded_rect w h r segments true = Some pts ->
+  exists pts0, rounded_rect w h r segments false = Some pts0 /\ pts = map (fun p => pt2_add p (Pt2 (- w / 2) (- h / 2))) pts0 /\
+               Forall (in_box (- w / 2) (- h / 2) (w / 2) (h / 2)) pts.
+Proof.
+  intros Hr Hw Hh Hs E.
+  destruct (rounded_rect w h r segments false) as [pts0|] eqn:E0.
+  - exists pts0. split; [reflexivity|].
+    assert (Epts : pts = map (fun p => pt2_add p (Pt2 (- w / 2) (- h / 2))) pts0).
+    { unfold rounded_rect in E, E0.
+      destruct (arc (Pt2 nzero r) (nofZ 90) segments); [|discriminate]. destruct (arc (Pt2 r nzero) (nofZ 90) segments); [|discriminate].
+      destruct (arc (Pt2 (- nzero) (- r))%num (nofZ 90) segments); [|discriminate]. destruct (arc (Pt2 (- r)%num nzero) (nofZ 90) segments); [|discriminate].
+      inversion E0 as [H0]. inversion E as [H1]. reflexivity. }
+    split; [exact Epts|]. rewrite Epts. rewrite Forall_map.
+    destruct (rounded_rect_box w h r segments pts0 Hr Hw Hh Hs E0) as (_ & HF & _).
+    eapply Forall_impl; [|exact HF]. intros p [[X1 X2] [Y1 Y2]]. unfold in_box, pt2_add. cbn [x2 y2 nadd NumR]. lra.
+  - exfalso. unfold rounded_rect in E, E0.
+    destruct (arc (Pt2 nzero r) (nofZ 90) segments); [|discriminate]. destruct (arc (Pt2 r nzero) (nofZ 90) segments); [|discriminate].
+    destruct (arc (Pt2 (- nzero) (- r))%num (nofZ 90) segments); [|discriminate]. destruct (arc (Pt2 (- r)%num nzero) (nofZ 90) segments); discriminate.
+Qed.
